@@ -36,12 +36,22 @@ RULE = ("random-walk cases: hypergraphs on nodes 0..N-1 (N 2..7, rarely 1), hype
         "must be rejected), all 8 rate triples in {0,1}^3 plus 6 random triples (mu=0, beta=beta_D=0, dyadic, arbitrary "
         "floats) passed as int / float / np.float64 / bool / Fraction, np.random.random recorded and replayed by the "
         "model. Distinct = canonical text of the case; non-trivial = non-regular hypergraph (random walk) / trajectory "
-        "that changes at >= 2 steps (contagion)")
+        "that changes at >= 2 steps (contagion). Starting densities also with negative entries (signed integer / rational / "
+        "dyadic vectors summing to 1, all container kinds) and, on exact Q arrays, entries of 1e-9..1e-320 and 1e6..1e40. "
+        "SIZE: per run 6 medium systems (13-1000 nodes, around 64/128/256/512/1000) and 3 large ones (one just above 1000 nodes, "
+        "one just above 2000 or 2048, one uniform with overlapping hyperedges above 1000; thorough: 7 "
+        "large up to 4156 nodes, 55 medium) generated from a seed stored in the case, reached by ctor / add_edge / "
+        "add_edges / id gaps / save+load .hgx .json / copy / used-rewired-used, every routine of both anchors called "
+        "(matrix, stationary state, 5 densities incl. signed ones in several container kinds, 3 sampled walks; contagion "
+        "with all 8 deterministic triples + 3 random ones, string / gapped labels, possibly cut into pieces) and judged "
+        "by sparse oracles built from the hyperedge list; non-trivial = irregular weighted degrees / trajectory changes")
 ASSUMPTIONS = ["nodes are labelled 0..N-1 (random walk) and hyperedges have distinct members (what Hypergraph.get_edges() returns)",
                "N >= 2 for the random-walk clauses (the one-node hypergraph has an all-nan matrix; counted, not judged)",
                "I_0 maps every node of the hypergraph to 0 or 1 (nodes may be missing only when no sweep is run); T >= 1",
                "np.random.choice(n, p=...) returns an index of positive probability; np.random.random() lies in [0, 1)"]
-TRUSTED = ["np.linalg.solve (LAPACK gesv) returns the solution of the repaired non-singular system up to rounding: "
+TRUSTED = ["systems above 14 nodes are judged by the property oracles only (float64 sparse products, tolerance 1e-12 relative "
+           "to the L1 norm of the start, 1e-9 for the solve); the model's executable definitions are cubic and are not run there",
+           "np.linalg.solve (LAPACK gesv) returns the solution of the repaired non-singular system up to rounding: "
            "RW_stationary_state is compared with d/sum(d) within 1e-9",
            "binary64 rounding of T/rowsum and of s @ K: matrices and densities are compared with the exact Rat model "
            "within 1e-12 (densities additionally exactly, on hgxv.Q object arrays, against the implementation's own K)",
@@ -688,23 +698,68 @@ def check_rw(ctx, drv, case):
     for _ in range(16):
         w[rng_local.randrange(n)] += 1
     starts.append(("dyadic", [Fraction(x, 16) for x in w]))
+    # every sign / zero pattern the routine accepts (its only precondition is np.isclose(sum(s), 1)): signed integer
+    # vectors, signed rationals, signed dyadics, entries far below / above 1 (exact arithmetic only)
+    w = [rng_local.randint(-3, 4) if rng_local.random() < 0.7 else 0 for _ in range(n)]
+    w[rng_local.randrange(n)] = -rng_local.randint(1, 3)
+    k = rng_local.randrange(n)
+    w[k] += 1 - sum(w)
+    if all(x >= 0 for x in w):
+        w[k] += 1
+        w[(k + 1) % n] -= 1
+    starts.append(("signed_int", [Fraction(x) for x in w]))
+    for _ in range(2):
+        w = [rng_local.randint(-4, 4) for _ in range(n)]
+        w[rng_local.randrange(n)] = -rng_local.randint(1, 4)
+        if max(w) <= 0:
+            w[rng_local.randrange(n)] = rng_local.randint(1, 4)      # both signs present (n >= 2)
+            if min(w) >= 0:
+                w[[i for i in range(n) if w[i] <= 0][0]] = -1
+        if sum(w) == 0:
+            w[w.index(max(w))] += 1
+        den = rng_local.choice([sum(w), sum(w)])
+        starts.append(("signed", [Fraction(x, den) for x in w]))
+    w = [rng_local.randint(-12, 12) for _ in range(n)]
+    w[0] += 16 - sum(w)
+    if all(x >= 0 for x in w):
+        w[0] += 1
+        w[1] -= 1
+    rng_local.shuffle(w)
+    starts.append(("signed_dyadic", [Fraction(x, 16) for x in w]))
+    eps = Fraction(1, 10 ** rng_local.choice([9, 13, 17, 30, 320]))
+    w = [eps * rng_local.choice([1, 1, -1, 2, 0]) for _ in range(n)]
+    k = rng_local.randrange(n)
+    w[k] += 1 - sum(w)
+    starts.append(("tiny", w))
+    big = 10 ** rng_local.choice([6, 16, 20, 40])
+    w = [Fraction(0)] * n
+    a, b = rng_local.sample(range(n), 2)
+    w[a], w[b] = Fraction(big), Fraction(1 - big)
+    starts.append(("huge", w))
     Kq = [[Fraction(float(K[i, j])) for j in range(n)] for i in range(n)]
     for idx, (shape, s) in enumerate(starts):
         if ctx.too_many():
             break
         kinds = ["Q"] * 4 + ["f64"] * 2 + ["list_float", "tuple_float", "list_frac", "row"]
-        if shape in ("unit", "dyadic"):
+        if shape in ("unit", "dyadic", "signed_int", "signed_dyadic"):
             kinds += ["f32", "f16"]
         if shape == "unit":
             kinds += ["i64", "i64", "i32", "i8", "u8", "bool", "bool", "list_int", "list_int", "list_bool", "tuple_int"] * 1
+        if shape == "signed_int":
+            kinds += ["i64", "i64", "i32", "i8", "list_int", "list_int", "tuple_int"]
+        if shape in ("tiny", "huge"):
+            kinds = ["Q"]                          # exact arithmetic only: binary64 cannot hold these next to 1
         kind = rng_local.choice(kinds)
+        ctx.count("density_shape_" + shape)
         time = rng_local.choice([0, 1, 2, 3, 4, 5] * 4 + [8, 13]) if kind != "Q" else rng_local.randint(0, 5)
         targ = np.int64(time) if rng_local.random() < 0.15 else time
         st, out = call(RW.random_walk_density, h, make_start(np, kind, s), targ)
-        if st != "ok" and kind == "Q":
+        if st != "ok" and kind == "Q" and shape not in ("tiny", "huge"):
             kind = "f64"
             st, out = call(RW.random_walk_density, h, make_start(np, kind, s), targ)
         exact = kind == "Q"
+        # binary64 rounding of K (rows sum to 1 within ~1e-16) and of the products is relative to the size of the vector
+        tol_s = TOL * max(1, sum(abs(x) for x in s))
         ctx.count("density_start_" + kind)
         c2 = {**case, "density": [hgxv.enc_num(x) for x in s], "density_kind": kind, "time": time}
         if st != "ok":
@@ -718,20 +773,20 @@ def check_rw(ctx, drv, case):
         if len(out) != time + 1 or any(len(v) != n for v in out):
             ctx.violation(c2, f"random_walk_density returned {len(out)} vectors for time={time}")
             continue
-        if any(not close(a, b, 0 if exact else TOL) for a, b in zip(out[0], s)):
+        if any(not close(a, b, 0 if exact else tol_s) for a, b in zip(out[0], s)):
             ctx.violation(c2, "the first density is not the starting density")
         for t in range(time):
             want = [sum(out[t][i] * Kq[i][j] for i in range(n)) for j in range(n)]
-            if any(not close(a, b, 0 if exact else TOL) for a, b in zip(out[t + 1], want)):
+            if any(not close(a, b, 0 if exact else tol_s) for a, b in zip(out[t + 1], want)):
                 ctx.violation(c2, f"density {t+1} is not density {t} times the transition matrix (start given as {kind}): "
                                   f"{[float(x) for x in out[t+1]]} vs {[float(x) for x in want]}")
                 break
         for t in range(time + 1):
-            if not close(sum(out[t]), 1, TOL):
+            if not close(sum(out[t]), 1, tol_s):
                 ctx.violation(c2, f"density {t} sums to {float(sum(out[t]))!r} (start given as {kind})")
                 break
         lines.append("dens %s %d" % (hgxv.enc_list(s), time))
-        expect.append(("matrix", out, TOL))
+        expect.append(("matrix", out, tol_s))
     # --- sampled walks
     for s in range(n):
         if ctx.too_many():
@@ -999,8 +1054,423 @@ def check_cont(ctx, drv, case):
             ctx.disagree({**case, "line": ln}, f"model answers {a[:200]!r} to {ln[:160]!r}, implementation gives {str(ex[1:])[:200]}")
 
 
+# ------------------------------------------------------------------------------------------
+# SIZE as a dimension: medium and large systems (13 .. several thousand nodes), judged by vectorised oracles built from
+# the hyperedge list alone (sparse products); the Lean model is not run on them (its executable definitions are cubic),
+# the theorems are for every N
+
+def _limit_threads():
+    """BLAS with one thread: the dense solves of large cases must not depend on how busy the machine is"""
+    try:
+        import numpy, numpy.linalg, scipy.sparse, scipy.sparse.linalg, scipy.linalg  # noqa: F401,E401 - loaded before limiting
+        from threadpoolctl import threadpool_limits
+        return threadpool_limits(limits=1)
+    except Exception:  # noqa: BLE001
+        return None
+
+
+def big_edges(gseed, n, sizes, extra):
+    """connected hypergraph on 0..n-1, generated from the case's own seed: every new hyperedge joins 1..k-1 new nodes
+    to covered ones; then `extra`*n further hyperedges, a third of them twins of stored ones (pairs of nodes sharing
+    several hyperedges) and a few around one hub node (irregular weighted degrees)"""
+    rng = __import__("random").Random(gseed)
+    order = list(range(n))
+    rng.shuffle(order)
+    covered, rest, edges = [order[0]], order[1:], set()
+    while rest:
+        k = rng.choice(sizes)
+        new = [rest.pop() for _ in range(min(len(rest), max(rng.randint(1, k - 1), k - len(covered))))]
+        old = set()                                                    # at least one covered node: connected
+        while len(old) < min(k - len(new), len(covered)):
+            old.add(rng.choice(covered))
+        edges.add(tuple(sorted(old | set(new))))
+        covered += new
+    stored = sorted(edges)
+    hub = order[0]
+    for i in range(int(extra * n)):
+        k = min(n, rng.choice(sizes))
+        r = rng.random()
+        if r < 0.33 and k >= 3:
+            base = [x for x in rng.choice(stored) if True][:k - 1]
+            e = set(base)
+            while len(e) < k:
+                e.add(rng.randrange(n))
+        elif r < 0.43:
+            e = {hub}
+            while len(e) < k:
+                e.add(rng.randrange(n))
+        else:
+            e = set(rng.sample(range(n), k))
+        edges.add(tuple(sorted(e)))
+    edges = sorted(edges)
+    rng.shuffle(edges)
+    return edges
+
+
+BIG_ROUTES = ["ctor", "add_edge", "add_edges", "gaps", "hgx", "json", "copy", "warm"]
+
+
+def big_build(case, E, labels=None, use_cb=None):
+    """the Hypergraph object of a large case; E in the case's order"""
+    from hypergraphx import Hypergraph
+    from hypergraphx.readwrite.load import load_hypergraph
+    from hypergraphx.readwrite.save import save_hypergraph
+    n, route = case["N"], case["route"]
+    rng = __import__("random").Random(case["gseed"] + 1)
+    L = (lambda x: labels[x]) if labels else (lambda x: x)
+    EL = [tuple(L(v) for v in e) for e in E]
+    if route == "ctor":
+        return Hypergraph(edge_list=EL)
+    h = Hypergraph()
+    if route in ("add_edge", "warm"):
+        nodes = [L(x) for x in range(n)]
+        rng.shuffle(nodes)
+        h.add_nodes(nodes[: n // 2])
+    if route == "add_edge":
+        for e in EL:
+            h.add_edge(e)
+    elif route == "add_edges":
+        h.add_edges(EL)
+    elif route == "gaps":
+        temps, stored = set(), set(E)
+        for i, e in enumerate(EL):
+            h.add_edge(e)
+            if i % 7 == 3:
+                t = tuple(sorted(rng.sample(range(n + 2), 3)))         # temporary hyperedges, two temporary nodes
+                if t not in stored and t not in temps:
+                    h.add_edge(tuple(L(v) for v in t))                 # `labels` has entries for n and n + 1
+                    temps.add(t)
+        for t in sorted(temps):
+            h.remove_edge(tuple(L(v) for v in t))
+        for v in (n, n + 1):
+            if L(v) in set(h.get_nodes()):
+                h.remove_node(L(v))
+    elif route in ("hgx", "json"):
+        cut = (9 * len(EL)) // 10
+        h.add_edges(EL[:cut])
+        with tempfile.TemporaryDirectory(prefix="hgxv-c18-") as d:
+            fn = os.path.join(d, "h." + route)
+            save_hypergraph(h, fn, binary=(route == "hgx"))
+            h = load_hypergraph(fn)
+        for e in EL[cut:]:
+            h.add_edge(e)
+    elif route == "copy":
+        o = Hypergraph(edge_list=EL)
+        h = o.copy()
+        for e in EL[:20]:
+            o.remove_edge(e)
+    elif route == "warm":
+        # the same object is used, rewired with unchanged numbers of nodes and hyperedges, and used again
+        swap = [e for e in E[:30]]
+        repl = []
+        have = set(E)
+        for e in swap:
+            for _ in range(20):
+                c = tuple(sorted(rng.sample(range(n), len(e))))
+                if c not in have:
+                    have.add(c)
+                    repl.append(c)
+                    break
+        h.add_edges([tuple(L(v) for v in e) for e in E[len(repl):]] + [tuple(L(v) for v in e) for e in repl])
+        if use_cb is not None:
+            use_cb(h)
+        for e in repl:
+            h.remove_edge(tuple(L(v) for v in e))
+        for e in E[:len(repl)]:
+            h.add_edge(tuple(L(v) for v in e))
+    else:
+        raise ValueError(route)
+    return h
+
+
+def check_rw_big(ctx, case):
+    import numpy as np
+    from scipy import sparse
+    from hypergraphx.dynamics import randwalk as RW
+    n, npseed = case["N"], case["npseed"]
+    E = big_edges(case["gseed"], n, case["sizes"], case["extra"])
+    rl = __import__("random").Random(npseed)
+    lim = 120
+    ctx.count("rw_big_cases")
+    ctx.count("rw_big_N_%s" % ("13-99" if n < 100 else "100-999" if n < 1000 else "1000-1999" if n < 2000 else "2000+"))
+    ctx.count("rw_big_route_" + case["route"])
+
+    def use(h):
+        call(RW.transition_matrix, h, limit=lim)
+        call(RW.RW_stationary_state, h, limit=lim)
+        call(RW.random_walk_density, h, np.ones(h.num_nodes()) / h.num_nodes(), 1, limit=lim)
+        call(RW.random_walk, h, 0, 1, limit=lim)
+
+    st, h = call(big_build, case, E, None, use, limit=lim)
+    if st != "ok":
+        ctx.violation(case, f"building the hypergraph failed: {h}")
+        return
+    st, got = call(lambda: (sorted(h.get_nodes()), sorted(tuple(sorted(e)) for e in h.get_edges())), limit=lim)
+    if st != "ok" or got != (list(range(n)), sorted(E)):
+        ctx.disagree(case, "the object built for a large case does not list the nodes 0..N-1 / the generated hyperedges")
+        return
+    # the property's closed forms from the hyperedge list: W[i, j] = sum over shared hyperedges of (size - 1),
+    # d[i] = sum over i's hyperedges of (size - 1)^2 = row sum of W
+    ii, jj, ww = [], [], []
+    d = np.zeros(n)
+    for e in E:
+        k = len(e) - 1
+        for a in e:
+            d[a] += k * k
+            for b in e:
+                if a != b:
+                    ii.append(a); jj.append(b); ww.append(k)
+    W = sparse.csr_matrix((np.array(ww, dtype=float), (ii, jj)), shape=(n, n))
+    W.sum_duplicates()
+    Kor = sparse.diags(1.0 / d) @ W
+    ctx.case("rwbig|" + repr((n, case["gseed"], case["sizes"], case["extra"], case["route"], npseed)),
+             len(set(d.tolist())) > 1, sample=case)
+    st, Ksp = call(RW.transition_matrix, h, limit=lim)
+    if st != "ok":
+        ctx.violation(case, f"transition_matrix raised on a connected hypergraph with {n} nodes: {Ksp}")
+        return
+    st, K = call(lambda: sparse.csr_matrix(Ksp).astype(float), limit=lim)
+    if st != "ok" or K.shape != (n, n):
+        ctx.violation(case, f"transition_matrix did not return an N x N matrix (N = {n}): {K if st != 'ok' else K.shape}")
+        return
+    if not np.isfinite(K.data).all():
+        ctx.violation(case, f"transition matrix (N = {n}) has non-finite entries")
+        return
+    rs = np.asarray(K.sum(axis=1)).reshape(-1)
+    if np.abs(rs - 1).max() > TOL:
+        ctx.violation(case, f"N = {n}: row {int(np.abs(rs - 1).argmax())} of the transition matrix sums to {float(rs[np.abs(rs - 1).argmax()])!r}")
+    if K.data.size and K.data.min() < 0:
+        ctx.violation(case, f"N = {n}: the transition matrix has a negative entry")
+    D = abs(K - Kor)
+    if D.nnz and D.max() > TOL:
+        Dc = D.tocoo()
+        i, j = int(Dc.row[Dc.data.argmax()]), int(Dc.col[Dc.data.argmax()])
+        ctx.violation(case, f"N = {n}: K[{i}][{j}] = {float(K[i, j])!r}, but sum over shared hyperedges of (size-1) / row total = "
+                            f"{float(W[i, j])}/{float(d[i])}")
+    Kp = K.copy(); Kp.eliminate_zeros()
+    pat = (Kp != 0).astype(np.int8) - (W != 0).astype(np.int8)
+    pat.eliminate_zeros()
+    if pat.nnz:
+        ctx.violation(case, f"N = {n}: the transition matrix is positive exactly between nodes sharing a hyperedge - not so here")
+    # --- stationary state: probability vector, fixed by K (residual with sparse products), proportional to d
+    st, pi = call(RW.RW_stationary_state, h, limit=lim)
+    if st != "ok":
+        ctx.violation(case, f"RW_stationary_state raised on a connected hypergraph with {n} nodes: {pi}")
+    else:
+        st, pi = call(lambda: np.asarray(pi, dtype=float).reshape(-1))
+        if st != "ok" or pi.shape != (n,) or not np.isfinite(pi).all():
+            ctx.violation(case, f"RW_stationary_state (N = {n}) did not return a finite vector of length N")
+        else:
+            if abs(pi.sum() - 1) > TOL_SOLVE:
+                ctx.violation(case, f"N = {n}: stationary state sums to {float(pi.sum())!r}")
+            if pi.min() < -TOL_SOLVE:
+                ctx.violation(case, f"N = {n}: stationary state has a negative entry {float(pi.min())!r}")
+            res = np.abs(Kor.T @ pi - pi).max()
+            if res > TOL_SOLVE:
+                ctx.violation(case, f"N = {n}: stationary state is not fixed by the transition matrix: max |pi K - pi| = {float(res)!r}")
+            dev = np.abs(pi - d / d.sum())
+            if dev.max() > TOL_SOLVE:
+                i = int(dev.argmax())
+                ctx.violation(case, f"N = {n}: stationary state is not proportional to sum over hyperedges of (size-1)^2: "
+                                    f"pi[{i}] = {float(pi[i])!r}, expected {float(d[i])}/{float(d.sum())}")
+    # --- densities
+    starts = []
+    u = np.zeros(n); u[rl.randrange(n)] = 1
+    starts.append(("unit", u))
+    starts.append(("uniform", np.ones(n) / n))
+    w = np.zeros(n)
+    for _ in range(5):
+        w[rl.randrange(n)] += rl.randint(1, 4)
+    starts.append(("few", w / w.sum()))
+    w = np.array([rl.randint(-2, 3) if rl.random() < 0.5 else 0 for _ in range(n)], dtype=float)
+    w[rl.randrange(n)] = -2
+    k = rl.randrange(n)
+    w[k] += 1 - w.sum()
+    starts.append(("signed_int", w))
+    w = np.array([rl.randint(-8, 24) for _ in range(n)], dtype=float)
+    w[rl.randrange(n)] = -5
+    starts.append(("signed", w / w.sum()))
+    for shape, s in starts:
+        if ctx.too_many():
+            break
+        kinds = ["f64", "f64", "list_float", "row"] + (["i64", "list_int", "bool", "f32"] if shape == "unit" else []) \
+            + (["i64", "i32", "list_int"] if shape == "signed_int" else [])
+        kind = rl.choice(kinds)
+        time = rl.choice([0, 1, 2, 3, 4])
+        arg = {"f64": lambda: s.copy(), "list_float": lambda: [float(x) for x in s], "row": lambda: s.reshape(1, -1).copy(),
+               "i64": lambda: s.astype(np.int64), "i32": lambda: s.astype(np.int32), "list_int": lambda: [int(x) for x in s],
+               "bool": lambda: s.astype(bool), "f32": lambda: s.astype(np.float32)}[kind]()
+        ctx.count("big_density_%s_%s" % (shape, kind))
+        c2 = {**case, "density_shape": shape, "density_kind": kind, "time": time}
+        st, out = call(RW.random_walk_density, h, arg, time, limit=lim)
+        if st != "ok":
+            ctx.violation(c2, f"N = {n}: random_walk_density raised on a {shape} starting density given as {kind}: {out}")
+            continue
+        st, arr = call(lambda: [np.asarray(v, dtype=float).reshape(-1) for v in out])
+        if st != "ok" or len(arr) != time + 1 or any(v.shape != (n,) for v in arr):
+            ctx.violation(c2, f"N = {n}: random_walk_density did not return time+1 = {time + 1} vectors of length N")
+            continue
+        tol = TOL * max(1.0, float(np.abs(s).sum()))
+        if np.abs(arr[0] - s).max() > tol:
+            ctx.violation(c2, f"N = {n}: the first density is not the starting density")
+        for t in range(time):
+            dev = np.abs(arr[t + 1] - Kor.T @ arr[t])
+            if not np.isfinite(dev).all() or dev.max() > tol:
+                ctx.violation(c2, f"N = {n}: density {t+1} is not density {t} times the transition matrix ({shape} start given as "
+                                  f"{kind}): entry {int(np.nanargmax(dev))} is off by {float(np.nanmax(dev))!r}")
+                break
+        for t in range(time + 1):
+            if not abs(arr[t].sum() - 1) <= tol:
+                ctx.violation(c2, f"N = {n}: density {t} sums to {float(arr[t].sum())!r} ({shape} start given as {kind})")
+                break
+    # --- sampled walks
+    for _ in range(3):
+        if ctx.too_many():
+            break
+        s0, time = rl.randrange(n), rl.choice([0, 1, 5, 12])
+        c2 = {**case, "start": s0, "time": time}
+        np.random.seed((npseed + s0) % 2 ** 32)
+        st, nodes = call(RW.random_walk, h, s0, time, limit=lim)
+        if st != "ok":
+            ctx.violation(c2, f"N = {n}: random_walk raised: {nodes}")
+            continue
+        try:
+            nodes = [int(x) for x in nodes]
+        except Exception as e:  # noqa: BLE001
+            ctx.violation(c2, f"N = {n}: random_walk returned non-integer nodes: {e}")
+            continue
+        if len(nodes) != time + 1 or nodes[:1] != [s0]:
+            ctx.violation(c2, f"N = {n}: walk from {s0} for {time} steps returned {nodes[:20]}")
+            continue
+        for a, b in zip(nodes, nodes[1:]):
+            if not (0 <= b < n and a != b and W[a, b] > 0):
+                ctx.violation({**c2, "walk": nodes}, f"N = {n}: the walk steps from {a} to {b}, which share no hyperedge")
+                break
+        ctx.count("big_walk_steps", time)
+
+
+def spread_oracle_indexed(E, nodes, I, T, b, bd, mu):
+    """spread_oracle for large systems: the same words, with the hyperedges of size 2 / 3 indexed by member"""
+    pairs, tris = {v: [] for v in nodes}, {v: [] for v in nodes}
+    for e in E:
+        if len(e) in (2, 3):
+            for v in e:
+                (pairs if len(e) == 2 else tris)[v].append([u for u in e if u != v])
+    counts = [0] * T
+    counts[0] = sum(I.values())
+    t = 1
+    while counts[t - 1] > 0 and t < T:
+        new = dict(I)
+        for v in nodes:
+            if I[v] == 0:
+                by_pair = b == 1 and any(all(I[u] == 1 for u in o) for o in pairs[v])
+                by_tri = bd == 1 and any(all(I[u] == 1 for u in o) for o in tris[v])
+                new[v] = 1 if (by_pair or by_tri) else 0
+            else:
+                new[v] = 0 if mu == 1 else 1
+        I = new
+        counts[t] = sum(I.values())
+        t += 1
+    return counts
+
+
+def check_cont_big(ctx, case):
+    import numpy as np
+    from hypergraphx.dynamics.contagion import simplicial_contagion
+    n, npseed, T = case["N"], case["npseed"], case["T"]
+    E = big_edges(case["gseed"], n, case["sizes"], case["extra"])
+    rl = __import__("random").Random(npseed)
+    if case.get("cut"):
+        # contagion is for all hypergraphs: drop hyperedges so that the system falls apart, some nodes isolated
+        E = [e for e in E if rl.random() > case["cut"]]
+    labels = ["v%d" % i for i in range(n + 2)] if case.get("label_kind") == "str" else \
+        [3 * i - 7 for i in range(n + 2)] if case.get("label_kind") == "gap" else None
+    L = (lambda x: labels[x]) if labels else (lambda x: x)
+    lim = 120
+    ctx.count("contagion_big_cases")
+    route = case["route"]
+    st, h = call(big_build, {**case, "route": route if route != "warm" else "add_edge"}, E, labels, None, limit=lim)
+    if st == "ok":
+        st, h = call(lambda: (h.add_nodes([L(x) for x in range(n)]), h)[1], limit=lim)
+    if st != "ok":
+        ctx.violation(case, f"building the hypergraph failed: {h}")
+        return
+    p = case["p0"]
+    I0 = {x: int(rl.random() < p) for x in range(n)}
+    if p > 0 and not any(I0.values()):
+        I0[0] = 1
+    inf0 = sum(I0.values())
+    changes_max = 0
+    for (b, bd, mu) in [tuple(r) for r in case["rates"]]:
+        if ctx.too_many():
+            break
+        c2 = {**case, "rates": [[b, bd, mu]]}
+        np.random.seed(npseed % 2 ** 32)
+        st, out = call(simplicial_contagion, h, {L(x): v for x, v in I0.items()}, T, b, bd, mu, limit=lim)
+        if st != "ok":
+            ctx.violation(c2, f"simplicial_contagion raised on {n} nodes: {out}")
+            continue
+        try:
+            out = [float(x) for x in np.asarray(out).reshape(-1)]
+        except Exception as e:  # noqa: BLE001
+            ctx.violation(c2, f"simplicial_contagion returned a non-numeric result: {e}")
+            continue
+        ctx.count("contagion_big_runs")
+        if len(out) != T:
+            ctx.violation(c2, f"result has {len(out)} entries for T={T}")
+            continue
+        if any(not (0 <= x <= 1) for x in out):
+            ctx.violation(c2, f"{n} nodes: fractions outside [0,1]: {out}")
+        if abs(out[0] - inf0 / n) > TOL:
+            ctx.violation(c2, f"{n} nodes: first value {out[0]} is not the initial infected fraction {inf0}/{n}")
+        if mu == 0 and any(y < x - TOL for x, y in zip(out, out[1:])):
+            ctx.violation(c2, f"{n} nodes: recovery rate 0 but the infected fraction decreases: {out}")
+        if b == 0 and bd == 0 and any(y > x + TOL for x, y in zip(out, out[1:])):
+            ctx.violation(c2, f"{n} nodes: both infection rates 0 but the infected fraction increases: {out}")
+        if all(x in (0, 1) for x in (b, bd, mu)):
+            want = spread_oracle_indexed(E, list(range(n)), I0, T, b, bd, mu)
+            if any(abs(x - c / n) > TOL for x, c in zip(out, want)):
+                ctx.violation(c2, f"{n} nodes, deterministic regime (beta, beta_D, mu) = {(b, bd, mu)}: trajectory "
+                                  f"{[round(x * n) for x in out]} differs from the spreading through pairs and triangles {want}")
+        changes_max = max(changes_max, sum(1 for x, y in zip(out, out[1:]) if x != y))
+    ctx.case("contbig|" + repr((n, case["gseed"], case["sizes"], case["extra"], case.get("cut"), route, npseed, T, p)),
+             changes_max >= 2, sample=case)
+
+
+def gen_big(rng, kind, n):
+    sizes = rng.choice([[2], [3], [2, 3], [2, 3, 3, 4], [2, 3, 4, 5], [3, 4, 5], [4]]) if kind == "rwbig" else \
+        rng.choice([[2], [3], [2, 3], [2, 2, 3, 3, 4], [2, 3, 3, 5]])
+    case = {"kind": kind, "N": n, "gseed": rng.randrange(2 ** 31), "sizes": sizes, "extra": rng.choice([0.0, 0.1, 0.3, 0.6]),
+            "route": rng.choice(BIG_ROUTES), "npseed": rng.randrange(2 ** 31)}
+    if kind == "contbig":
+        r8 = lambda: rng.randint(1, 7) / 8  # noqa: E731
+        case.update({"T": rng.randint(2, 7), "p0": rng.choice([0.02, 0.1, 0.3, 0.7, 1.0]),
+                     "cut": rng.choice([0, 0, 0.2]), "label_kind": rng.choice(["id", "id", "str", "gap"]),
+                     "rates": [[b, bd, mu] for b in (0, 1) for bd in (0, 1) for mu in (0, 1)]
+                     + [[r8(), r8(), 0], [0, 0, r8()], [rng.random(), rng.random(), rng.random()]]})
+    return case
+
+
+def rng_pick_large(rng):
+    return rng.choice([1001, 1000 + rng.randint(1, 60), 1000 + rng.randint(1, 400)])
+
+
+def big_sizes(rng, tier):
+    """one system above 1000 nodes per quick run (where a 'large system' branch would start), some medium ones;
+    thorough: just above 1000, above 2000, above 4000 (powers of two included), many medium ones"""
+    around = lambda c: rng.choice([c + 1, c + rng.randint(1, 60), c + rng.randint(1, c // 3)])  # noqa: E731
+    if tier != "thorough":
+        return ([around(1000), rng.choice([2000, 2048]) + rng.randint(1, 60)],
+                [rng.randint(13, 40), rng.randint(41, 130), rng.choice([64, 65, 100, 101, 128, 129]),
+                 rng.choice([255, 256, 257, 300, 500, 501, 512, 513]), rng.randint(131, 999), rng.choice([999, 1000])])
+    return ([around(1000), around(1024), around(1000), around(2000), around(2048), rng.randint(1001, 3000), 4096 + rng.randint(1, 60)],
+            [rng.randint(13, 999) for _ in range(40)] + [64, 65, 100, 101, 128, 129, 255, 256, 257, 500, 501, 512, 513, 999, 1000])
+
+
 def gen_rw(rng):
     n = rng.choice([2, 3, 3, 4, 4, 5, 5, 6, 6, 7, 7]) if rng.random() > 0.02 else 1
+    if rng.random() < 0.02:
+        n = rng.randint(8, 14)                     # the largest systems that still go through the model
     connected = rng.random() > 0.12
     sizes = rng.choice([[2], [2, 3], [2, 3, 3, 4], [2, 3, 4, 5], [3], [3, 4, 5]])
     edges = gen_edges(rng, n, connected, sizes)
@@ -1075,6 +1545,7 @@ def gen_cont(rng):
 
 
 def run(ctx):
+    _lim = _limit_threads()  # noqa: F841 - kept alive for the whole run
     drv = ctx.driver() if ctx.model_available else None
     n_rw = ctx.scale(300, 5000)
     n_ct = ctx.scale(300, 5000)
@@ -1097,6 +1568,22 @@ def run(ctx):
         check_cont(ctx, drv, {"kind": "cont", "route": route, "ops": gen_history(r2, 5, [4, 3, 2, 1, 0], es, route)[1],
                               "I0": [[k, int(k in (1, 2))] for k in range(5)], "T": 6,
                               "rates": [[b, bd, mu] for b in (0, 1) for bd in (0, 1) for mu in (0, 1)], "npseed": 3})
+    # size: medium systems first, then the large one(s); in quick they take about a quarter of the budget
+    large, medium = big_sizes(ctx.rng, ctx.tier)
+    t0 = __import__("time").time()
+    for n in medium + large + ["uniform"]:
+        if ctx.too_many() or (ctx.time_left() is not None and ctx.time_left() < 20):
+            ctx.count("big_sizes_skipped_for_time")
+            continue
+        if n == "uniform":
+            # a large uniform hypergraph whose hyperedges overlap in several nodes (pairs sharing several hyperedges)
+            case = gen_big(ctx.rng, "rwbig", rng_pick_large(ctx.rng))
+            case.update({"sizes": [ctx.rng.choice([3, 3, 4, 5])], "extra": ctx.rng.choice([0.3, 0.6])})
+            check_rw_big(ctx, case)
+            continue
+        check_rw_big(ctx, gen_big(ctx.rng, "rwbig", n))
+        check_cont_big(ctx, gen_big(ctx.rng, "contbig", n))
+    ctx.count("big_seconds", int(__import__("time").time() - t0))
     for i in range(max(n_rw, n_ct)):
         if i < n_rw:
             check_rw(ctx, drv, gen_rw(ctx.rng))
@@ -1109,7 +1596,12 @@ def run(ctx):
 def replay(ctx, case):
     drv = ctx.driver() if ctx.model_available else None
     case = {k: v for k, v in case.items() if k not in ("line", "density", "density_kind", "time", "start", "walk")}
-    if case.get("kind") == "cont":
+    _lim = _limit_threads()  # noqa: F841
+    if case.get("kind") == "rwbig":
+        check_rw_big(ctx, {k: v for k, v in case.items() if k not in ("density_shape",)})
+    elif case.get("kind") == "contbig":
+        check_cont_big(ctx, case)
+    elif case.get("kind") == "cont":
         check_cont(ctx, drv, case)
     else:
         check_rw(ctx, drv, case)
